@@ -225,6 +225,17 @@ def calls(run, P, rule):
                     owner = var
             arg = c.args[0] if c.args else None
             ok = owner is not None and dotted(arg) == f"{owner}.statements"
+            if not ok and owner is None:
+                # inside a loop over a part of the phase map
+                part = [lp for lp in ast.walk(f.node) if isinstance(lp, ast.For)
+                        and any(x is n.ast for b in lp.body for x in ast.walk(b))
+                        and isinstance(lp.iter, ast.Call) and isinstance(lp.iter.func, ast.Attribute)
+                        and lp.iter.func.attr in ("values", "items")
+                        and isinstance(lp.iter.func.value, ast.Name)]
+                if part:
+                    raise AnalysisError(f"verify_code: {norm(c)[:50]} runs over "
+                                        f"{norm(part[0].iter)[:30]}, a part of the phase map; "
+                                        f"not decided")
             if not ok and owner is None and dotted(arg) == f"{code}.phases":
                 # the pass is handed the phase map and walks it itself
                 callee = P.module(MOD).functions.get(name)
@@ -245,6 +256,11 @@ def calls(run, P, rule):
                        "any other phase is accepted")
         else:
             ok = bool(c.args) and dotted(c.args[0]) == f"{code}.phases"
+            if not ok and c.args and isinstance(c.args[0], ast.Name):
+                # a part of the phase map (phases that were not verified before, say):
+                # whether what is left out may be left out is not decided here
+                raise AnalysisError(f"verify_code: {norm(c)[:60]} is handed a part of the phase "
+                                    f"map; not decided")
             run.ob(rule, f, c, ok, construct=norm(c),
                    why="the pass must see the whole phase map")
     ex = call_nodes("verify_all_dependencies_exist")
@@ -302,6 +318,28 @@ def _reachable_raises(run, P):
                 continue
             n_fn += 1
             rs = [r for r in ast.walk(f.node) if isinstance(r, ast.Raise)]
+            # a raise that every read in the passes stands inside a handler for is dealt with
+            raised = {(dotted(r.exc.func) if isinstance(r.exc, ast.Call) else dotted(r.exc)) or "?"
+                      for r in rs if r.exc is not None}
+            reads = []
+            for pn in _PASSES:
+                pf = m.functions[pn]
+                phase_vars = {v_ for _lp, v_ in _loop_over_phases(pf.node, pf.arg(0))} \
+                    if pn != "verify_code" else {v_ for _lp, v_ in _loop_over_phases(
+                        pf.node, f"{pf.arg(0)}.phases")}
+                for x in ast.walk(pf.node):
+                    if isinstance(x, ast.Attribute) and x.attr == a and isinstance(x.ctx, ast.Load):
+                        if c.name == "ExecutionPhase" and dotted(x.value) not in phase_vars:
+                            continue        # the attribute of that name of a statement
+                        tries = [t_ for t_ in ast.walk(pf.node) if isinstance(t_, ast.Try)
+                                 and any(y is x for b in t_.body for y in ast.walk(b))]
+                        caught = {dotted(e_) for t_ in tries for h in t_.handlers
+                                  for e_ in ([h.type] if not isinstance(h.type, ast.Tuple)
+                                             else h.type.elts) if h.type is not None}
+                        # the blanket handler of verify_code re-raises: it does not count
+                        reads.append(bool(raised) and raised <= caught and pn != "verify_code")
+            if rs and reads and all(reads):
+                rs = []
             excused = (c.name, a) in _REACHABLE_RAISE_OK
             run.ob("C10.raise", f, rs[0] if rs else f.node, not rs or excused,
                    construct=f"{c.name}.{a} (read by the verifier) raises nothing of its own"
@@ -520,7 +558,7 @@ def _cycle(run, P):
         body = el.body
         tests_ = [i for i, s_ in enumerate(body) if isinstance(s_, ast.If)
                   and ast.unparse(s_.test) == f"{v} in {visiting}"
-                  and isinstance(s_.body[-1], ast.Return)
+                  and isinstance(s_.body[-1], (ast.Return, ast.Break))
                   and any(has(f"{errs}.append(ANY)", x_) for x_ in s_.body)]
         pushes = [i for i, s_ in enumerate(body) if has(f"{stack}.append(V_tbl[{v}])", s_)
                   and not isinstance(s_, ast.If)]
